@@ -5,6 +5,7 @@ import json
 def run(ctx):
     if ctx.replay:
         return rerun(ctx)
+    # (the secure suite none / tls:<aead> / ecdhe:<aead> is a dimension of every run; the nodes really negotiate it)
     # 1. exhaustive model check: three concurrent sessions (honest dialer, attacker's node, self-connection), the attacker chooses every deliverable signature message
     #    plus a connection opened by the attacker with a recorded SecureRequest (transcript replay, session 4)
     #    and the environment creating many other peer ids (IdentityFinal: an assigned identity never changes)
@@ -75,6 +76,10 @@ def run(ctx):
     nfull = sum(1 for b in allb if full_replay(b))
     if nfull < 2:
         raise MachineryError("vacuity: transcript replay generated only %d times" % nfull)
+    # ... for every kind of secure suite (the session secret must not depend on it)
+    kinds = {b[0]["suite"].split(":")[0] for b in allb if full_replay(b)}
+    if kinds != {"none", "tls", "ecdhe"}:
+        raise MachineryError("vacuity: transcript replays generated only for the suites %s" % sorted(kinds))
     ctx.notes.append("whole-transcript replays generated: %d" % nfull)
     inp = ctx.path("in", "behaviours.ndjson")
     with open(inp, "w") as fh:
